@@ -28,12 +28,13 @@ var Pages = []string{
 <p><a href="/list?cat=1&amp;page=1">1</a> <a href="/list?cat=2&amp;page=2">2</a> <a href="/list?cat=3&amp;page=3">3</a></p></div></body></html>`,
 	// 4: descending pager, current page decorated
 	`<html><head><title>Archive listing page</title></head><body><div><p>Paragraph of the archive page with enough words to be classified as content by the classifier, keep typing a few more words here.</p>
-<div class="nav"><a href="/archive?page=4">4</a> <a href="/archive?page=3">3</a> <b>2</b> <a href="/archive?page=1">1</a></div></div></body></html>`,
+<div class="nav"><a href="/archive?page=4">4</a> <a href="/archive?page=3">3</a> <b>2</b> <a href="/archive?page=1">1</a></div>
+<div class="pager"><a class="nav" href="/archive/plans/3">Next</a></div><div class="pager"><a class="nav" href="/archive/photo/3">Next</a></div></div></body></html>`,
 	// 5: OpenGraph prefixes declared with xmlns attributes, https and multi-valued schema.org item types, prev/next links under two "negative" ancestors, data table before a marked subtree
 	`<html xmlns:ogx="http://ogp.me/ns#" xmlns:artx="http://ogp.me/ns/article#"><head><title>Exotic markup page title words</title><meta property="ogx:title" content="OGX title"><meta property="ogx:type" content="article"><meta property="ogx:url" content="http://h.t/x"><meta property="ogx:image" content="http://h.t/x.png"><meta property="artx:section" content="Sec"></head><body>
 <div id="main"><div itemscope itemtype="https://schema.org/Article"><h1 itemprop="headline">Secure headline words</h1></div>
 <div itemscope itemtype="http://schema.org/Article http://schema.org/ImageObject"><span itemprop="headline">Double typed item</span> by <span itemprop="author">Ann Two</span>, <span itemprop="copyrightHolder">Holder Inc</span> <img itemprop="contentUrl" src="two.png"></div>
-<p>Paragraph one of the exotic page with enough words to be classified as content by the classifier, keep typing a few more words here and there.</p>
+<p style="margin:0; display:block">Paragraph <span style="display:none">hidden words</span> one of the exotic page with enough words to be classified as content by the classifier, keep typing a few more words here and there.</p>
 <table><caption>Numbers</caption><thead><tr><th>k</th><th>v</th></tr></thead><tbody><tr><td>one</td><td>1</td></tr></tbody></table>
 <div class="comment-box"><p>marked words</p></div>
 <p>Paragraph two of the exotic page, long enough as well, with more and more words to reach the length that is needed for content, and a note<a href="#fn">*</a>.</p></div>
